@@ -4,6 +4,7 @@ go 1.25.6
 
 require (
 	github.com/DataDog/datadog-traceroute v0.0.0
+	github.com/google/gopacket v1.1.19
 	github.com/patrickmn/go-cache v2.1.0+incompatible
 	golang.org/x/net v0.49.0
 	golang.org/x/sys v0.40.0
@@ -13,7 +14,6 @@ require (
 require (
 	github.com/cenkalti/backoff/v5 v5.0.3 // indirect
 	github.com/golang/mock v1.6.0 // indirect
-	github.com/google/gopacket v1.1.19 // indirect
 	github.com/google/uuid v1.6.0 // indirect
 	golang.org/x/sync v0.19.0 // indirect
 )
